@@ -102,7 +102,7 @@ fn run_case(kind: &str, idx: u64, rng: &mut Rng, mon: &mut Mon, _tier: Tier) {
     let mut to = [0.0; 6];
     let mut classes = vec![];
     for j in 0..6 {
-        let (f, t, c) = match rng.usize(8) {
+        let (f, t, c) = match rng.usize(9) {
             0 => {
                 let a = rng.range(-2.0 * PI, 2.0 * PI);
                 let b = rng.range(-2.0 * PI, 2.0 * PI);
@@ -128,6 +128,13 @@ fn run_case(kind: &str, idx: u64, rng: &mut Rng, mon: &mut Mon, _tier: Tier) {
                 }
             },
             5 => (rng.range(0.05, 2.0 * PI), 0.0, "wrap_to_zero"),
+            // almost the whole turn: a forbidden sliver of 2e-5 .. 8e-4 rad (limits typed as +-3.1413 and the like),
+            // as a plain range or as a wrap-around range
+            8 => {
+                let g = rng.logu(1e-5, 4e-4);
+                let c = rng.range(-PI, PI);
+                if rng.bool(0.5) { (c + g - 2.0 * PI, c - g, "almost_full_turn") } else { (c + g, c - g, "almost_full_turn_wrapping") }
+            }
             // arcs of positive but tiny width: a few ulps up to a nanoradian, plain or wrapping through 0
             7 => {
                 let w = if rng.bool(0.4) { rng.int(1, 6) as f64 * f64::EPSILON * 4.0 } else { rng.logu(1e-15, 1e-9) };
@@ -202,6 +209,12 @@ fn run_case(kind: &str, idx: u64, rng: &mut Rng, mon: &mut Mon, _tier: Tier) {
             }
         };
         mon.count("draws");
+        // the list form of the same acceptance test (what every IK call uses) must keep the draw as well
+        if c.compliant(&draw) && c.filter(&vec![draw]).len() != 1 {
+            if reported.insert("filter".to_string()) {
+                mon.violation("draw-dropped-by-own-filter", "a drawn joint vector is accepted by compliant() but dropped by filter() of the same constraints", json!({"from": jf(&from), "to": jf(&to), "drawn": jf(&draw), "classes": classes}));
+            }
+        }
         // "accepted by the same constraints": the library's own verdict on its own draw
         if !c.compliant(&draw) {
             let all_ref_ok = (0..6).all(|j| arc_contains(from[j], to[j], draw[j]).0 != Some(false));
